@@ -271,6 +271,50 @@ func clVisitorPivotCopies(c *Ctx) {
 					if cc, isCall := v.(*ssa.Call); isCall && p.CallsAny(cc, ptrToItem, newItem) {
 						okv = true
 					}
+					if !isNilConst(v) {
+						// the list of pivots is strictly increasing: a candidate is taken only if it compares ABOVE the previous one
+						isInc := func(gv ssa.Value, val bool) bool {
+							cmp, okc := cmpOf(gv, val)
+							if !okc {
+								return false
+							}
+							isCmpCall := func(x ssa.Value) bool {
+								cl, isC := strip(x).(*ssa.Call)
+								return isC && cl.Call.StaticCallee() == nil && !cl.Call.IsInvoke() && len(cl.Call.Args) == 2
+							}
+							return cmp.match(token.GTR, isCmpCall, isConstInt(0)) || cmp.match(token.GEQ, isCmpCall, isConstInt(1))
+						}
+						isFirst := func(gv ssa.Value, val bool) bool {
+							cmp, okc := cmpOf(gv, val)
+							return okc && cmp.Op == token.EQL && (isNilConst(cmp.X) || isNilConst(cmp.Y))
+						}
+						// `prev == nil || cmp(itm, prev) > 0`: every edge into the accepting block carries one of the two facts
+						var edgesOK func(b *ssa.BasicBlock, depth int) bool
+						edgesOK = func(b *ssa.BasicBlock, depth int) bool {
+							if len(b.Preds) == 0 || depth > 3 {
+								return false
+							}
+							for _, pb := range b.Preds {
+								ok := false
+								for fct := range fi.EdgeFactSet(pb, b) {
+									if isInc(fct.V, fct.Val) || isFirst(fct.V, fct.Val) {
+										ok = true
+									}
+								}
+								if !ok && len(pb.Succs) == 1 {
+									ok = edgesOK(pb, depth+1)
+								}
+								if !ok {
+									return false
+								}
+							}
+							return true
+						}
+						inc := fi.Guarded(call, isInc) || edgesOK(call.Block(), 0)
+						first := fi.Guarded(call, isFirst)
+						c.Check(inc || first, f, st, "a shard pivot is accepted only if it compares above the previous pivot (or is the first)",
+							"pivots are filtered by inequality instead of order: a pivot walk that restarted (it met a node being deleted) yields a non-monotonic pivot list, shard ranges overlap and a key range is delivered twice")
+					}
 					c.Check(okv, f, st, "shard pivot kept beyond the barrier bracket is a private copy", "a raw pointer to a store item is kept as shard pivot after the barrier session that protected it was released: the item can be collected and freed while shards still compare against it (use-after-free; shard boundaries read garbage)")
 				}
 			}
